@@ -800,6 +800,14 @@ public:
         if (parent)
             f["lambdaOf"] = fnId(parent);
         f["inst"] = FD->isTemplateInstantiation();
+        // access of a member function (for an instantiation of a member function template: the template's access, which the record's method list does not carry)
+        if (isa<CXXMethodDecl>(FD)) {
+            AccessSpecifier as = FD->getAccess();
+            if (as == AS_none)
+                if (auto P = FD->getPrimaryTemplate())
+                    as = P->getAccess();
+            f["access"] = (int64_t)as;
+        }
         f["implicit"] = FD->isImplicit();
         f["defaulted"] = FD->isDefaulted();
         f["inline"] = FD->isInlined();
